@@ -28,20 +28,18 @@ impl<const BITS: usize, const LIMBS: usize> Encodable for Uint<BITS, LIMBS> {
 
     #[inline]
     fn encode(&self, out: &mut dyn BufMut) {
+        #[cfg(feature = "recmo_uint_verif")]
+        match LIMBS {
+            1 => crate::verif_hooks::hit(160),
+            2 => crate::verif_hooks::hit(161),
+            _ => {}
+        }
         // fast paths, avoiding allocation due to `to_be_bytes_vec`
         match LIMBS {
             0 => return out.put_u8(EMPTY_STRING_CODE),
-            1 => {
-                #[cfg(feature = "recmo_uint_verif")]
-                crate::verif_hooks::hit(160);
-                return self.limbs[0].encode(out);
-            }
+            1 => return self.limbs[0].encode(out),
             #[allow(clippy::cast_lossless)]
-            2 => {
-                #[cfg(feature = "recmo_uint_verif")]
-                crate::verif_hooks::hit(161);
-                return (self.limbs[0] as u128 | ((self.limbs[1] as u128) << 64)).encode(out);
-            }
+            2 => return (self.limbs[0] as u128 | ((self.limbs[1] as u128) << 64)).encode(out),
             _ => {}
         }
 
@@ -106,12 +104,11 @@ impl<const BITS: usize, const LIMBS: usize> Decodable for Uint<BITS, LIMBS> {
             return Err(Error::LeadingZero);
         }
 
-        let value = Self::try_from_be_slice(bytes);
         #[cfg(feature = "recmo_uint_verif")]
-        if value.is_none() {
+        if Self::try_from_be_slice(bytes).is_none() {
             crate::verif_hooks::hit(171);
         }
-        value.ok_or(Error::Overflow)
+        Self::try_from_be_slice(bytes).ok_or(Error::Overflow)
     }
 }
 
